@@ -61,7 +61,17 @@ fn run_cacts(container: &ContainerContext, cacts: &[CAct]) {
     }
 }
 
+/// (C17) inactive unless TRUN_CTX_LOG names a file: one line `h<pack_stdout hex> h<pack_stderr hex>` per closure entered
+fn record_ctx(context: &TestContext) {
+    if let Some(p) = std::env::var_os("TRUN_CTX_LOG") {
+        use std::io::Write;
+        std::fs::OpenOptions::new().append(true).create(true).open(p).unwrap()
+            .write_all(format!("h{} h{}\n", hex(context.pack_stdout.as_bytes()), hex(context.pack_stderr.as_bytes())).as_bytes()).unwrap();
+    }
+}
+
 fn run_acts(context: TestContext, acts: &[Act], bcfgs: &[BCfg], ccfgs: &[CCfg]) {
+    record_ctx(&context);
     for a in acts {
         match a {
             Act::Start(i, cacts) => context.start_container(container_config(&ccfgs[*i]), |container| run_cacts(&container, cacts)),
@@ -82,6 +92,16 @@ fn run_acts(context: TestContext, acts: &[Act], bcfgs: &[BCfg], ccfgs: &[CCfg]) 
 }
 
 fn main() {
+    // (C17) inactive unless TRUN_PANIC_LOG names a file: the message of every panic is appended as `h<hex>`
+    if let Some(p) = std::env::var_os("TRUN_PANIC_LOG") {
+        let prev = std::panic::take_hook();
+        std::panic::set_hook(Box::new(move |info| {
+            use std::io::Write;
+            let msg = info.payload().downcast_ref::<String>().cloned().or_else(|| info.payload().downcast_ref::<&str>().map(|s| (*s).to_string())).unwrap_or_default();
+            if let Ok(mut f) = std::fs::OpenOptions::new().append(true).create(true).open(&p) { let _ = f.write_all(format!("h{}\n", hex(msg.as_bytes())).as_bytes()); }
+            prev(info);
+        }));
+    }
     let args: Vec<String> = std::env::args().collect();
     if args.len() != 4 { eprintln!("usage: trun <bcfgs> <ccfgs> <tree>"); std::process::exit(2); }
     let (Some(bcfgs), Some(ccfgs), Some(tree)) = (parse_cfg_list(&args[1], parse_bcfg), parse_cfg_list(&args[2], parse_ccfg), parse_tree(&args[3])) else { eprintln!("trun: unparsable scenario"); std::process::exit(2) };
